@@ -413,6 +413,11 @@ func buildList(x *X, i int, kind string, spec dbListSpec) (*signature.SignatureL
 			}
 		}
 		if err != nil {
+			if dup {
+				x.Probe("list_duplicate_rejected")
+			} else if wrongSize {
+				x.Probe("list_wrong_size_rejected")
+			}
 			if listSnapshot(l) != before {
 				fail("dbhist.failed_op_changes_nothing", "list-level append failed (%v) but the list changed", err)
 				return nil, false
@@ -636,6 +641,16 @@ func (e *dbhistEngine) Exec(tr *Trace, x *X) {
 				after := viewOf(db)
 				x.Logf("op %d %s(%s,o%d,d%d) dup=%v -> %v  |view|=%d", i, op.Op, typeSig(op.T), op.O, op.D, dup, err, len(after))
 				if err != nil {
+					switch {
+					case dup && dbIsPEM(op.T, op.D):
+						x.Probe("duplicate_rejected_pem_form")
+					case dup:
+						x.Probe("duplicate_rejected")
+					case unknown:
+						x.Probe("unknown_type_rejected")
+					case wrong:
+						x.Probe("wrong_size_rejected")
+					}
 					if dbSnapshot(db) != snap {
 						fail("dbhist.failed_op_changes_nothing", "append failed (%v) but the database changed", err)
 					}
@@ -685,6 +700,9 @@ func (e *dbhistEngine) Exec(tr *Trace, x *X) {
 				after := viewOf(db)
 				x.Logf("op %d %s(%s,o%d,d%d) present=%v -> %v  |view|=%d", i, op.Op, typeSig(op.T), op.O, op.D, present, err, len(after))
 				if err != nil {
+					if !present {
+						x.Probe("remove_absent_rejected")
+					}
 					if dbSnapshot(db) != snap {
 						fail("dbhist.failed_op_changes_nothing", "remove failed (%v) but the database changed", err)
 					}
